@@ -683,8 +683,13 @@ def prime_oracle(inst):
 
 
 def build_instance(rng, backend, max_bits):
-    flex, rigid = random_aut_decl(rng, max_bits)
-    inst = Inst(flex, rigid, backend)
+    # the width is the real code's; instances wider than intended (possible
+    # only if the declaration code changed) are redrawn to bound the cost
+    for _ in range(50):
+        flex, rigid = random_aut_decl(rng, max_bits)
+        inst = Inst(flex, rigid, backend)
+        if inst.n <= max_bits:
+            break
     inst.preds = make_preds(rng, inst)
     return inst
 
